@@ -189,9 +189,27 @@ def random_module(rng: random.Random, max_claims=6, with_imports=True, syms=SYMS
             base_th = prop.prop1_inst(pend, p_()) if rng.random() < 0.5 else prop.imp_refl(pend)
             newplug = pat(rng, 1, 0.0, 0.2, syms)
             # (an identity plug would make the substitution redundant, which the machine refuses to build and the toolkit cannot judge)
-            if tb.of_repo(newplug) not in (tb.ev(x_), tb.sv(x_)) and _wf(tb.of_repo(P.ESubst(P.MetaVar(a_), P.EVar(x_), newplug))):
+            if (tb.of_repo(newplug) not in (tb.ev(x_), tb.sv(x_)) and _wf(tb.of_repo(P.ESubst(P.MetaVar(a_), P.EVar(x_), newplug)))
+                    and admissible_inst(base_th.conc, {b_: newplug})):     # (the other argument may hold a constrained metavariable of the same number)
                 add(mod.dynamic_inst(base_th, {b_: newplug}), 'dynamic_inst(plug metavariable of a pending substitution)')
                 tags.add('pending_subst_plug_instantiated')
+        except AssertionError:
+            pass
+    if rng.random() < 0.12:
+        # binders and variables of the *other* kind that share a number (mu X_n over x_n, exists x_n over X_n): the two name spaces
+        # must not be confused by freshness tests and substitutions; the result is offered to generalisation below
+        try:
+            n_ = rng.choice((0, 1, 2))
+            s_ = P.Symbol(rng.choice(syms))
+            co = rng.choice((P.Mu(n_, P.App(P.EVar(n_), P.SVar(n_))), P.Mu(n_, P.EVar(n_)), P.Mu(n_, P.App(s_, P.EVar(n_))),
+                             P.Exists(n_, P.App(P.SVar(n_), P.EVar(n_))), P.Exists(n_, P.SVar(n_)), P.Mu(n_, P.Exists(n_, P.App(P.SVar(n_), P.EVar(n_))))))
+            base_th = rng.choice((lambda: prop.imp_refl(co), lambda: prop.prop1_inst(p_(), co), lambda: prop.bot_elim(co)))()
+            add(base_th, f'coincident_numbers({co})')
+            tags.add('coincident_binder_numbers')
+            if rng.random() < 0.7:
+                lr_ = P.Implies.unwrap(base_th.conc)
+                add(mod.exists_generalization(base_th, P.EVar(rng.choice((n_, n_, (n_ + 1) % 3)))), f'gen(coincident_numbers({co}))')
+                tags.add('exists_generalization')
         except AssertionError:
             pass
     if rng.random() < 0.2:
@@ -279,10 +297,15 @@ def random_module(rng: random.Random, max_claims=6, with_imports=True, syms=SYMS
             elif r < 0.6:
                 lr = P.Implies.unwrap(th.conc)
                 if lr:
-                    cands = [x for x in (0, 1, 2, 3) if lr[1].evar_is_free(x)]
-                    if cands:
-                        add(mod.exists_generalization(th, P.EVar(rng.choice(cands))), f'gen({d})')
-                        tags.add('exists_generalization')
+                    # mostly a variable the document's judgement calls fresh in the consequent; sometimes any variable: the toolkit has to
+                    # refuse those itself (AssertionError => nothing is serialised), the generator does not consult the toolkit's judgement
+                    e_rhs = tb.of_repo(lr[1])
+                    cands = [x for x in (0, 1, 2, 3) if tb.d_e_fresh(e_rhs, x)]
+                    if rng.random() < 0.3 or not cands:
+                        cands = [0, 1, 2, 3]
+                        tags.add('generalization_over_any_variable')
+                    add(mod.exists_generalization(th, P.EVar(rng.choice(cands))), f'gen({d})')
+                    tags.add('exists_generalization')
             elif r < 0.7:
                 lr = P.Implies.unwrap(th.conc)
                 if lr:
